@@ -104,10 +104,12 @@ CLAIMED['C08'] = {
             'the post-condition verifier (greatest fixed point); the Delaunay verifiers drop no checker result; the flip '
             'drivers cannot write the vertex maps and the heuristic rebuild re-inserts every stored vertex and fails on a '
             'skipped one, its first attempt unperturbed; the work-list seeding shared by repair and verifier covers every simplex class per cell; no exported '
-            'operation returns success after a flip driver succeeded without the cell orientation having been re-validated; a Some(seed set) handed to the repair is non-empty by construction. '
+            'operation returns success after a flip driver succeeded without the cell orientation having been re-validated; a Some(seed set) handed to the repair is non-empty by construction; in the k=2 local-Delaunay predicate shared by the repair loop and its post-condition a positive in-sphere sign yields the verdict violation for every valuation of the dimension / configuration conditions (finite boolean walk of the MIR tail; violated today: known finding F24, D >= 4). '
             'Decides budget / admissibility / post-condition gating, not convergence or uniqueness.',
     'note': 'Trusted: rustc MIR; the four flip-predicate post-condition checkers and validate_cell_delaunay are leaves '
-            '(their numerical verdict is C04, not applicable).',
+            '(their numerical verdict is C04, not applicable), except that the masking of a positive sign in the k=2 predicate is '
+            'decided (UNMASKED). Known finding F24 is listed in known_findings.txt with its run-time witnesses; the check '
+            'prints KNOWN-FINDING for it and exits 0.',
     'technique': 'must-pass-through (dominance) + call-graph fixed points over rustc MIR',
     'design': '§5 C08',
 }
@@ -132,12 +134,14 @@ CLAIMED['C01'] = {
             'completion check is passed on the true edge of requires_vertex_links_at_completion; certifiers are verifiers that '
             'cannot answer Ok without a check having run; no constructor returns Ok after a flip repair without the cell '
             'orientation having been re-validated; sibling constructors (plain / statistics) reach the same verifiers; the '
-            'first construction attempt uses the caller\'s vertices unperturbed; per-insertion statistics record the outcome that is reported; a stale cell hint reaches the same fallback scan as no hint. The debug and the '
+            'first construction attempt uses the caller\'s vertices unperturbed; per-insertion statistics record the outcome that is reported; a stale cell hint reaches the same fallback scan as no hint; the k=2 local-Delaunay predicate behind the verifier does not mask a positive in-sphere sign (violated today: known finding F24, D >= 4). The debug and the '
             'release fact bases are analysed separately because RetryPolicy and validation paths differ — the suite '
             'never runs the release paths. Decides "Ok is certified", not that the certifier is numerically right.',
     'note': 'Trusted: rustc MIR; the L4 leaf table; Pseudomanifold has no Level-3 completion gate by design (noted in '
             'evidence). Of the vertex-set clause only element conservation in the de-duplication family and UUID/data of '
-            're-created vertices are decided; of the statistics only that each (outcome, statistics) pair agrees.',
+            're-created vertices are decided; of the statistics only that each (outcome, statistics) pair agrees. Known finding F24 '
+            '(4-D constructors return Ok with cells violating the empty-circumsphere property) is listed in known_findings.txt '
+            'with its run-time witness; the check prints KNOWN-FINDING for it and exits 0.',
     'technique': 'greatest-fixed-point certification (dominance on success edges) over rustc MIR',
     'design': '§5 C01',
 }
